@@ -166,6 +166,16 @@ def newer_worker(job):
             open(ref2, "wb").close()
             os.utime(ref2, ns=(pc + rng.choice([-1, 0, 1]), pc + rng.choice([-1, 0, 1])))
             r2 = os.lstat(ref2)
+            # a third reference that is itself one of the walked entries (with a hard link beside it), its own X timestamps in a
+            # different order than its Y timestamps: "X of the entry against Y of the reference" has no exception for the reference
+            ref3 = os.path.join(d, "ref3")
+            open(ref3, "wb").close()
+            a3, m3 = sorted([t0 - rng.choice([10, 500]) * NS - rng.randrange(NS), t0 - rng.choice([2000, 90000]) * NS - rng.randrange(NS)],
+                            reverse=rng.random() < 0.7)
+            os.utime(ref3, ns=(a3, m3))
+            os.link(ref3, os.path.join(d, "ref3.lnk"))
+            r3 = os.lstat(ref3)
+            files += ["d/ref3", "d/ref3.lnk"]
             lst = {f: os.lstat(os.path.join(sb, f)) for f in files}
             tests, specs = [], []
             for (x, y) in XY:
@@ -179,10 +189,17 @@ def newer_worker(job):
                 specs.append((x, y, "ref2", "-newer%s%s" % (x, y)))
             tests.append(["-cnewer", "ref2"])
             specs.append(("c", "m", "ref2", "-cnewer"))
+            for (x, y) in XY:
+                tests.append(["-newer%s%s" % (x, y), "d/ref3"])
+                specs.append((x, y, "d/ref3", "-newer%s%s" % (x, y)))
+            for nm, (x, y) in (("-newer", ("m", "m")), ("-anewer", ("a", "m")), ("-cnewer", ("c", "m"))):
+                tests.append([nm, rng.choice(["d/ref3", "d/ref3.lnk"])])
+                specs.append((x, y, "d/ref3", nm))
             args = ["find", "d", "-mindepth", "1", "-sorted"] + lbl.label_args(tests)
             res = common.run_find_inproc([("c", args, 0)], sb, sb)["c"]
             refs = {"ref": {"a": rst.st_atime_ns, "m": rst.st_mtime_ns, "c": rst.st_ctime_ns},
-                    "ref2": {"a": r2.st_atime_ns, "m": r2.st_mtime_ns, "c": r2.st_ctime_ns}}
+                    "ref2": {"a": r2.st_atime_ns, "m": r2.st_mtime_ns, "c": r2.st_ctime_ns},
+                    "d/ref3": {"a": r3.st_atime_ns, "m": r3.st_mtime_ns, "c": r3.st_ctime_ns}}
             rp = {"args": args, "refs": refs, "files": {f: {"a": lst[f].st_atime_ns, "m": lst[f].st_mtime_ns, "c": lst[f].st_ctime_ns} for f in files}}
             st.inc("runs")
             if res.special or res.panic or res.code != 0:
@@ -210,6 +227,8 @@ def newer_worker(job):
                     alt = set((ts(lst[f], x2) > refs[rname][y2]) for x2 in "acm" for y2 in "acm")
                     if len(alt) > 1:
                         st.inc("discriminating_evaluations")
+                    if rname == "d/ref3" and f.startswith("d/ref3"):
+                        st.inc("evaluations_of_the_reference_file_itself")
                     if (f in got) != want:
                         st.violate("wrong-newer", None, {"test": [spelled, rname], "X": x, "Y": y, "file": f, "entry_X_ns": ex, "ref_Y_ns": ry,
                                                          "expected": want, "find": f in got}, rp)
@@ -226,7 +245,8 @@ def run(ctx):
                 "k in {0,1,2,3,5,30,400}, e in {0, +-1ns, +-1ms, +-1s, half}; in half of the runs `now` is placed k*period + e after a ctime read "
                 "back from the file system; all six -Xtime/-Xmin tests with N, +N, -N around every file's value. (newer) reference files with "
                 "three different timestamps, entries whose atime or mtime is Y(ref)-1ns, Y(ref), Y(ref)+1ns (also +-1us, +-1s), second "
-                "reference placed around an entry's ctime; all nine -newerXY, -newer, -anewer, -cnewer. distinct = (test, operand)")
+                "reference placed around an entry's ctime, third reference inside the walked tree (with a hard link to it); all nine "
+                "-newerXY, -newer, -anewer, -cnewer. distinct = (test, operand)")
     ctx.assumptions = ["integer ns arithmetic on os.lstat records", "clock injected through Dependencies::now() (in-process harness)",
                        "-daystart, -newerXt and birth time not judged; ages >= 0"]
     nw = common.NCPU
